@@ -37,3 +37,105 @@ Proof.
   intros l idx. unfold is_term. rewrite Hl. destruct (fst (nth l (g_labels G') (true, []))); [reflexivity|apply IH].
 Qed.
 End Pres.
+
+(** * A generic simulation lemma
+    Two grammars whose rule lists correspond position by position, with labels renamed by an
+    injection [pi] and index tuples transported by [tau], have corresponding Kleene iterates as
+    soon as corresponding rules have corresponding values ([rule_sim]).  [VL] / [VI] restrict
+    the labels / index tuples at which the correspondence is required (and obtained). *)
+Section Sim.
+Context {R : Type} (o : sr_ops R) (Hring : sr_ring o).
+Variables (G G' : grammar) (pi : nat -> nat) (tau : nat -> list nat -> list nat).
+Variables (VL : nat -> Prop) (VI : nat -> list nat -> Prop).
+
+Definition env_sim (e e' : env (R:=R)) : Prop :=
+  forall l idx, VL l -> VI l idx -> e' (pi l) (tau l idx) = e l idx.
+
+Definition rule_sim (r r' : rule) : Prop :=
+  VL (r_lhs r) /\ r_lhs r' = pi (r_lhs r)
+  /\ forall e e' xi, env_sim e e' -> VI (r_lhs r) xi ->
+       rule_val o G' e' r' (tau (r_lhs r) xi) = rule_val o G e r xi.
+
+Lemma sumS_rules_sim (e e' : env (R:=R)) X xi rs rs' :
+  (forall X Y, VL X -> VL Y -> pi X = pi Y -> X = Y) ->
+  Forall2 rule_sim rs rs' -> env_sim e e' -> VL X -> VI X xi ->
+  sumS o (filter (fun r => Nat.eqb (r_lhs r) (pi X)) rs') (fun r => rule_val o G' e' r (tau X xi))
+  = sumS o (filter (fun r => Nat.eqb (r_lhs r) X) rs) (fun r => rule_val o G e r xi).
+Proof.
+  intros Hinj HF He HX Hxi. induction HF as [|r r' rs rs' (Hv & Hl & Hval) _ IH]; [reflexivity|].
+  cbn [filter].
+  assert (E : Nat.eqb (r_lhs r') (pi X) = Nat.eqb (r_lhs r) X).
+  { rewrite Hl. destruct (Nat.eqb (r_lhs r) X) eqn:E.
+    - apply Nat.eqb_eq in E. rewrite E. apply Nat.eqb_refl.
+    - apply Nat.eqb_neq in E. apply Nat.eqb_neq. intros E'. apply E. now apply Hinj. }
+  rewrite E. destruct (Nat.eqb (r_lhs r) X) eqn:E2; [|exact IH].
+  apply Nat.eqb_eq in E2. rewrite !sumS_cons, IH. f_equal.
+  rewrite <- E2. apply Hval; trivial. now rewrite E2.
+Qed.
+
+Theorem Zk_sim w w' :
+  (forall X, VL X -> is_term G' (pi X) = is_term G X) ->
+  (forall X Y, VL X -> VL Y -> pi X = pi Y -> X = Y) ->
+  (forall X xi, VL X -> VI X xi -> is_term G X = true -> w' (pi X) (tau X xi) = w X xi) ->
+  Forall2 rule_sim (g_rules G) (g_rules G') ->
+  forall k X xi, VL X -> VI X xi -> Zk o G' w' k (pi X) (tau X xi) = Zk o G w k X xi.
+Proof.
+  intros Hterm Hinj Hw HF. induction k as [|k IH]; intros X xi HX Hxi; [reflexivity|].
+  cbn [Zk]. unfold step. rewrite (Hterm X HX).
+  destruct (is_term G X) eqn:Ht; [now apply Hw|].
+  unfold rules_of. apply sumS_rules_sim; trivial.
+  intros l idx Hl Hidx. rewrite (Hterm l Hl). destruct (is_term G l) eqn:Htl; [now apply Hw|now apply IH].
+Qed.
+End Sim.
+
+Lemma Forall2_mono {A B} (P Q : A -> B -> Prop) l l' :
+  (forall a b, P a b -> Q a b) -> Forall2 P l l' -> Forall2 Q l l'.
+Proof. intros H H2. induction H2; constructor; auto. Qed.
+Lemma Forall2_mono_In {A B} (P Q : A -> B -> Prop) l l' :
+  (forall a b, In a l -> In b l' -> P a b -> Q a b) -> Forall2 P l l' -> Forall2 Q l l'.
+Proof.
+  intros H H2. induction H2 as [|a b l l' Hab _ IH]; constructor.
+  - apply H; trivial; now left.
+  - apply IH. intros x y Hx Hy. apply H; now right.
+Qed.
+
+(** * Permuting the edge list of every rule *)
+Definition rule_edges_perm (r r' : rule) : Prop :=
+  r_lhs r = r_lhs r' /\ r_nodes r = r_nodes r' /\ r_ext r = r_ext r'
+  /\ Permutation (r_edges r) (r_edges r').
+
+Section Edges.
+Context {R : Type} (o : sr_ops R) (Hring : sr_ring o).
+
+Lemma rule_val_edges_perm G G' (e e' : env (R:=R)) r r' xi :
+  g_doms G = g_doms G' -> (forall l idx, e l idx = e' l idx) -> rule_edges_perm r r' ->
+  rule_val o G e r xi = rule_val o G' e' r' xi.
+Proof.
+  intros Hd He (_ & Hn & Hx & Hp). unfold rule_val, node_sizes, dom. rewrite Hd, Hn, Hx.
+  apply sumS_ext. intros a _. rewrite (prodS_perm o Hring _ _ _ Hp).
+  apply prodS_ext. intros ed _. apply He.
+Qed.
+
+Theorem Zk_edges_perm G G' w k X xi :
+  g_doms G = g_doms G' -> g_labels G = g_labels G' ->
+  Forall2 rule_edges_perm (g_rules G) (g_rules G') ->
+  Zk o G w k X xi = Zk o G' w k X xi.
+Proof.
+  intros Hd Hl HF. symmetry.
+  apply (Zk_sim o G G' (fun l => l) (fun _ idx => idx) (fun _ => True) (fun _ _ => True)); trivial.
+  - intros l _. unfold is_term. now rewrite Hl.
+  - eapply Forall2_mono; [|exact HF]. intros r r' Hrr. split; [exact I|]. split; [symmetry; apply Hrr|].
+    intros e e' xi' He _. symmetry. apply rule_val_edges_perm; trivial.
+    intros l idx. symmetry. now apply He.
+Qed.
+End Edges.
+
+Definition ex_rule : rule :=
+  {| r_lhs := 1; r_nodes := [0; 1; 0]; r_edges := [(0, [0; 1]); (2, [1; 2]); (0, [2; 1])]; r_ext := [2; 0] |}.
+Definition ex_rule_edges : rule :=
+  {| r_lhs := 1; r_nodes := [0; 1; 0]; r_edges := [(2, [1; 2]); (0, [2; 1]); (0, [0; 1])]; r_ext := [2; 0] |}.
+Example ex_rule_edges_perm : rule_edges_perm ex_rule ex_rule_edges.
+Proof.
+  repeat split. cbn [ex_rule ex_rule_edges r_edges].
+  apply (Permutation_cons_app [(2, [1; 2]); (0, [2; 1])] []). apply Permutation_refl.
+Qed.
